@@ -129,6 +129,9 @@ pub fn build(ctl: &'static Ctrl, params: &Value) -> Instance {
             for _ in 0..max_reads {
                 may::verif::pt("iox.read", 0, 0, 0);
                 let t0 = ctl.vnow();
+                // is a time-out handler of an earlier read still in flight (between its two steps) when this read starts?
+                let sites = ctl.sites_so_far();
+                let handler_in_flight = sites.iter().filter(|s| **s == "iot.handler").count() > sites.iter().filter(|s| **s == "iot.take").count();
                 let nothing_before = sh.got.lock().unwrap().len() == sh.sent.load(SeqCst) && !sh.closed.load(SeqCst);
                 match s.read(&mut buf) {
                     Ok(0) => {
@@ -147,7 +150,14 @@ pub fn build(ctl: &'static Ctrl, params: &Value) -> Instance {
                         }
                         if let (Some(t0), Some(t1)) = (t0, ctl.vnow()) {
                             if t1 - t0 < rto * UNIT_NS {
-                                sh.bad.lock().unwrap().push(("early_timeout".into(), format!("read with a time-out of {} ns failed with TimedOut after {} ns", rto * UNIT_NS, t1 - t0)));
+                                let sites = ctl.sites_so_far();
+                                let in_flight_now = sites.iter().filter(|s| **s == "iot.handler").count() > sites.iter().filter(|s| **s == "iot.take").count();
+                                let how = if handler_in_flight || in_flight_now {
+                                    " [the time-out handler of an EARLIER read on this socket was in flight - between taking the timer cell and taking the coroutine - while that read completed and this one registered]"
+                                } else {
+                                    ""
+                                };
+                                sh.bad.lock().unwrap().push(("early_timeout".into(), format!("read with a time-out of {} ns failed with TimedOut after {} ns{how}", rto * UNIT_NS, t1 - t0)));
                             }
                         }
                         let _ = nothing_before;
